@@ -74,6 +74,16 @@ def exclstep(prof, quick, thorough):
 
 
 CONFIG = {
+    "C18": {
+        "rule": ("rapid stepper in a synctest bubble (virtual time) over ExponentialRetry/FatalError: one closure invoked 1-3 times on one context; operation = gated harness callback "
+                 "with a scripted outcome sequence (plain error x j, then success | fatal error wrapped 1-4 deep | plain forever), results nil/non-nil; cancellation planned per round "
+                 "(never, before the first call, driver cancels in call j, call j cancels itself, in the wait after failure j, deadline context); rate in {<=0 (300ms default), 1ns, 7ns, 1us, 1ms, 4s}; "
+                 "chains up to 40 failures (past the 31-doubling cap). Oracle: sequential specification from the doc comment (stop conditions, returned result/error with no fatal "
+                 "wrapper at any depth, no call after cancellation, every gap a whole number of slots within [0, 2^min(k,31)-1], waits cut short by cancellation, nil value panics, leak check). "
+                 "non-trivial = >=3 retries with a cancellation landing in a wait or call, or a nested fatal of depth >=2, or k>=31; distinct = hash of the case."),
+        "assumptions": ["the back-off distribution is not tested (only support and granularity)"],
+        "jobs": [{"name": "retry", "test": "TestC18Retry", "checks": {"quick": 24000, "thorough": 600000}, "shards": {"quick": 8, "thorough": 16}, "env": {"VKIT_PROFILE": "C18"}}],
+    },
     "C11": {
         "rule": ("generated concurrent programs per type (Buffer+consumers incl. shared consumer/SetCleanerConfig/Range, Channel, Exclusive, Workers, Worker, Notifier, WaitCond, "
                  "context combinators: 2-6 goroutines x 1-8 drawn operations inside the documented contracts, pointer payloads written just before hand-over and read just after receipt), "
